@@ -123,14 +123,16 @@ type Import struct {
 }
 
 type Rpc struct {
-	Name   string  `json:"name"`
-	Input  []*Node `json:"input,omitempty"`
-	Output []*Node `json:"output,omitempty"`
+	Name       string   `json:"name"`
+	IfFeatures []string `json:"if_features,omitempty"`
+	Input      []*Node  `json:"input,omitempty"`
+	Output     []*Node  `json:"output,omitempty"`
 }
 
 type Notif struct {
-	Name string  `json:"name"`
-	Kids []*Node `json:"kids,omitempty"`
+	Name       string   `json:"name"`
+	IfFeatures []string `json:"if_features,omitempty"`
+	Kids       []*Node  `json:"kids,omitempty"`
 }
 
 type Mod struct {
@@ -499,6 +501,9 @@ func (m *Mod) Text() string {
 	}
 	for _, r := range m.Rpcs {
 		x.ln(1, "rpc %s {", r.Name)
+		for _, f := range r.IfFeatures {
+			x.ln(2, "if-feature %s;", f)
+		}
 		if len(r.Input) > 0 {
 			x.ln(2, "input {")
 			for _, k := range r.Input {
@@ -517,6 +522,9 @@ func (m *Mod) Text() string {
 	}
 	for _, n := range m.Notifs {
 		x.ln(1, "notification %s {", n.Name)
+		for _, f := range n.IfFeatures {
+			x.ln(2, "if-feature %s;", f)
+		}
 		for _, k := range n.Kids {
 			x.node(2, k)
 		}
